@@ -29,3 +29,65 @@ Proof. exact single_logic_sig. Qed.
 Print Assumptions C13_verdict.
 Print Assumptions C13_offset_inversion.
 Print Assumptions C13_single_logic_sig.
+
+(* ------------------------------------------------------------------------------------------------------------
+   Extension (second round): semantic soundness of the verdict (Lemmas/GroupSem.v) *)
+From Coq Require Import List String NArith ZArith Bool Arith.
+From Tealer Require Import Tables Leaves LeafPrelude Syntax Parse Cfg StackAst Keys Analysis Domains Detect Group Runs Eval Exec ExecLemmas GroupLemmas NoMiss GroupSem.
+
+(* SEMANTIC CLAUSE (missing-fee-check): whenever there is a concrete group consistent with the configuration (distinct ids, configured absolute indices and offsets hold for the position assignment) that every configured contract approves (Spec/Exec.Accepts, each member seeing the same group) while transaction t pays a fee above the bound, t is reported *)
+Theorem C13_fee_no_miss_semantic :
+  forall (funcs : list (func * fn_result)) (group : list gtxn) (G : cgroup) (posn : string -> N) (t : gtxn) (fee : Z),
+       consistent funcs group G posn ->
+       group_ok funcs group posn ->
+       In t group ->
+       g_has_logic_sig t = true ->
+       cg_field G (posn (g_id t)) "Fee" = VInt fee ->
+       (MAX_TRANSACTION_COSTz < fee <= MAX_UINT64z)%Z -> txn_vulnerable funcs checks_missing_fee_check "STATELESS" None group t = true.
+Proof. exact @group_fee_no_miss. Qed.
+
+(* ... contrapositive: a transaction that is cleared pays at most the bound in every such group *)
+Theorem C13_fee_cleared_sound :
+  forall (funcs : list (func * fn_result)) (group : list gtxn) (G : cgroup) (posn : string -> N) (t : gtxn) (fee : Z),
+       consistent funcs group G posn ->
+       group_ok funcs group posn ->
+       In t group ->
+       g_has_logic_sig t = true ->
+       txn_vulnerable funcs checks_missing_fee_check "STATELESS" None group t = false ->
+       cg_field G (posn (g_id t)) "Fee" = VInt fee -> (fee <= MAX_UINT64z)%Z -> (fee <= MAX_TRANSACTION_COSTz)%Z.
+Proof. exact @group_fee_cleared_sound. Qed.
+
+(* the same for rekey-to (partial: address hypotheses of C01 carried as side condition on the approving executions) *)
+Theorem C13_rekey_no_miss_semantic_partial :
+  forall (funcs : list (func * fn_result)) (group : list gtxn) (G : cgroup) (posn : string -> N) (a : string),
+       consistent_with (rekey_side funcs group posn a) funcs group G posn ->
+       group_base_ok funcs group ->
+       forall t : gtxn,
+       In t group ->
+       cg_field G (posn (g_id t)) "RekeyTo" = VAddr a ->
+       a <> "ZERO" ->
+       LeafLemmas.is_marker a = false -> g_has_logic_sig t = true -> txn_vulnerable funcs checks_rekey_to "STATELESS" None group t = true.
+Proof. exact @group_rekey_no_miss_partial. Qed.
+
+(* "cleared when its own contract, or another member reading it through the configured absolute index or offset, excludes the value at every accepting exit" (exits = leaf blocks of the function) *)
+Theorem C13_cleared_when_excluded_at_every_exit :
+  forall (funcs : list (func * fn_result)) (checks : bctx -> bool) (dtype : string) (vtypes : option (list string)) 
+         (group : list gtxn) (t : gtxn),
+       (exists (k : nat) (f : func) (r : fn_result),
+          runs t k /\ nth_error funcs k = Some (f, r) /\ (forall b : nat, fn_leaf_block f b -> validated_in_block r checks (g_abs t) b = true)) \/
+       (exists (i : N) (other : gtxn) (k : nat) (f : func) (r : fn_result),
+          g_abs t = Some i /\
+          In other group /\
+          runs other k /\ nth_error funcs k = Some (f, r) /\ (forall b : nat, fn_leaf_block f b -> checks (ctx_of r b (KAbs i)) = true)) \/
+       NoDup (map g_id group) /\
+       (exists (other : gtxn) (off : Z) (k : nat) (f : func) (r : fn_result),
+          In other group /\
+          last_pointing (rel_dict other) (g_id t) off /\
+          runs other k /\ nth_error funcs k = Some (f, r) /\ (forall b : nat, fn_leaf_block f b -> checks (ctx_of r b (KRel off)) = true)) ->
+       txn_vulnerable funcs checks dtype vtypes group t = false.
+Proof. exact @cleared_when_exits. Qed.
+
+Print Assumptions C13_fee_no_miss_semantic.
+Print Assumptions C13_fee_cleared_sound.
+Print Assumptions C13_rekey_no_miss_semantic_partial.
+Print Assumptions C13_cleared_when_excluded_at_every_exit.
